@@ -201,20 +201,29 @@ echo @@C20SEP@@
 git status --porcelain=v2 --branch --ignored --untracked-files=all || exit 92
 """
 
-    def observe(self, new_commit=False, pre=()):
+    FSCK_SH = """echo @@C20SEP@@
+git fsck --no-dangling --connectivity-only 2>&1
+"""
+
+    def observe(self, new_commit=False, pre=(), fsck=False):
         """Run the harness' own git commands `pre` (if any) and then observe the repository, all in ONE shell
         process (process creation dominates the cost of a replay)."""
-        script = "".join(f"{c} || exit 90\n" for c in pre) + self.OBS_SH
+        script = "".join(f"{c} || exit 90\n" for c in pre) + self.OBS_SH + (self.FSCK_SH if fsck else "")
         p = subprocess.run(["sh", "-c", script], cwd=self.repo, env=self.env, capture_output=True, text=True, timeout=120)
         if p.returncode == 90:
             raise HarnessStepFailed(f"harness git step failed in {self.repo}: {pre}: {p.stderr[-400:]}")
         if p.returncode != 0:
             raise MachineryError(f"git cannot read {self.repo} (exit {p.returncode}): {p.stderr[-400:]}")
         parts = p.stdout.split("@@C20SEP@@\n")
-        if len(parts) != 3:
+        if len(parts) != (4 if fsck else 3):
             raise MachineryError(f"unexpected observation output in {self.repo}: {p.stdout[-300:]}")
-        refs, showref, st = parts
+        refs, showref, st = parts[:3]
         tags, raw, others = {}, {}, []
+        if fsck:
+            # after every invocation: every ref must still resolve and nothing reachable may be missing
+            # ("changes nothing else" includes not deleting objects other refs need)
+            others += ["fsck: " + ln for ln in parts[3].splitlines()
+                       if re.match(r"(error|fatal|missing|broken|bad|dangling ref|warning)", ln.strip())]
         for ln in refs.splitlines():
             name, oid, typ, poid, ptyp = (ln.split("\t") + ["", "", "", ""])[:5]
             if name.startswith("refs/tags/"):
@@ -368,6 +377,12 @@ def replay(case, ci, tmpl, tools, workdir, variant):
             else:
                 pre.append(f"git tag -a -m 'user tag {op['name']}' {op['name']}")
             ev = {"op": "usertag", "name": op["name"], "kind": op["kind"]}
+        elif kind == "alias":
+            for nm in (op["name"], op["src"]):
+                if not re.fullmatch(r"[A-Za-z0-9._+-]+", nm):
+                    raise MachineryError(f"tag name {nm!r} outside the harness' safe alphabet")
+            pre.append(f"git tag {op['name']} refs/tags/{op['src']}")   # src is annotated: both refs share ONE tag object
+            ev = {"op": "alias", "name": op["name"], "src": op["src"]}
         elif kind == "touch":
             k = op["kind"]
             if k == "modified":
@@ -416,7 +431,7 @@ def replay(case, ci, tmpl, tools, workdir, variant):
         if packed and kind != "run" and si + 1 < len(case["ops"]) and case["ops"][si + 1]["op"] == "run":
             pre.append("git pack-refs --all")   # what a clone looks like: every ref (and the peeled values) in packed-refs
         try:
-            o = r.observe(new_commit=(kind == "commit"), pre=pre)
+            o = r.observe(new_commit=(kind == "commit"), pre=pre, fsck=(kind == "run"))
         except HarnessStepFailed:
             if synced:
                 raise
@@ -479,7 +494,10 @@ def replay(case, ci, tmpl, tools, workdir, variant):
                     synced = False
             continue
         moved = sorted({before["tags"][n]["k"] for al in op["allowed"] for n in al["fresh"] if n in before["tags"]})
-        if broken or any(x.startswith("packed-refs:") for x in o["_other"]["refs"]) or \
+        gerr = o["_other"].get("git_error", "")
+        if any(x.startswith("fsck:") for x in o["_other"]["refs"]) or re.search(r"missing object|bad object|invalid sha1", gerr):
+            why = "object-needed-by-a-ref-deleted"
+        elif broken or any(x.startswith("packed-refs:") for x in o["_other"]["refs"]) or \
                 any(not t.get("sane", True) for t in o["tags"].values()):
             why = "ref-store-corrupted"
         elif not frame_ok:
@@ -499,7 +517,7 @@ def replay(case, ci, tmpl, tools, workdir, variant):
         verdicts.append({"sig": {"kind": why, "flag": op["flag"], "dirty": pre["dirty"], "exit": exit_class,
                                  "permitted": op["permitted"], "packed": packed, "moved_tag": "+".join(moved) or "none"},
                          "detail": {"case": ci, "step": si, "version": version, "initial_version": case["version"], "layout": layout, "packed": packed,
-                                    "history": [{k: v for k, v in x.items() if k in ("op", "name", "kind", "c", "flag", "version")}
+                                    "history": [{k: v for k, v in x.items() if k in ("op", "name", "kind", "c", "flag", "version", "src")}
                                                 for x in case["ops"][:si + 1]],
                                     "allowed_by_contract": op["allowed"], "observed_before": pub(before),
                                     "observed_after": pub(o), "exit_code": log[-1]["code"], "ref_changes": diff,
@@ -612,7 +630,7 @@ def run_replay(ctx, path):
             ctx.violation({"kind": "trace-rejected-after-drift", "flag": at["flag"], "exit": at["exit"]},
                           {"rejected_event": at, "oplog": res["events"], "case_export": case, "variant": list(variant)})
     ctx.cov["traces_validated_against_impl"] += 1
-    ctx.sample({"history": [{k: v for k, v in x.items() if k in ("op", "name", "kind", "c", "flag", "version")} for x in case["ops"]],
+    ctx.sample({"history": [{k: v for k, v in x.items() if k in ("op", "name", "kind", "c", "flag", "version", "src")} for x in case["ops"]],
                 "tool": res["log"], "observed_after": res["events"][-1]["obs"]})
     return {"level": "model_checking", "exhaustive": False}
 
@@ -653,7 +671,7 @@ def run(ctx):
     # (the breadth-first export represents every repository STATE by its shortest history, in which tags are
     # made by `git tag` rather than by earlier invocations; these histories make the tool meet its own tags)
     sim = ctx.tlc("TaggerMC", "Tagger_sim.cfg" if thorough else "Tagger_simq.cfg", workers=1,
-                  simulate="num=%d" % (1200 if thorough else 150), depth=60, timeout=900, deadlock=False, count=False)
+                  simulate="num=%d" % (1200 if thorough else 120), depth=60, timeout=900, deadlock=False, count=False)
     if sim.violated:
         ctx.note(f"model-level (simulation): {sim.violated} violated (a prediction; the replay decides)")
     elif not sim.ok:
@@ -665,31 +683,52 @@ def run(ctx):
             seen.add(k)
             cases.append(c)
     n_sim = len(cases) - n_bfs
-    if n_sim < (800 if thorough else 100):
+    if n_sim < (800 if thorough else 70):
         raise MachineryError(f"simulation exported only {n_sim} long histories:\n" + sim.tail())
-    if not any(sum(1 for o in c["ops"] if o["op"] == "run" and model_tags(o["impl"]["tags"]) != model_tags(o["pre"]["tags"])) >= 2
-               for c in cases[n_bfs:]):
+    def tag_steps(c):
+        return [k for k, o in enumerate(c["ops"]) if o["op"] == "run" and model_tags(o["impl"]["tags"]) != model_tags(o["pre"]["tags"])]
+    if thorough and not any(len(tag_steps(c)) >= 2 for c in cases[n_bfs:]):
         raise MachineryError("vacuous: no simulated history in which the tool tags twice")
+    if not any(tag_steps(c) and any(o["op"] == "run" for o in c["ops"][tag_steps(c)[0] + 1:]) for c in cases[n_bfs:]):
+        raise MachineryError("vacuous: no simulated history in which the tool is invoked again after it tagged")
     if not any(o["op"] == "checkout" for c in cases for o in c["ops"]):
         raise MachineryError("vacuous: no history with a detached HEAD")
+    if not any(c["ops"][-1].get("permitted") and any(o["op"] == "alias" for o in c["ops"]) for c in cases[:n_bfs]):
+        raise MachineryError("vacuous: no tagging history in which two refs share one tag object")
 
     # ---------------------------------------------------------------- 2. replay against the real binary
     budget = int(os.environ.get("VERIF_C20_MAX", "0")) or (12000 if thorough else 750)
     order = list(range(len(cases)))
     if len(order) > budget:
-        # always replayed: short histories and the long simulated ones.  Next in line: histories whose last
-        # invocation the contract permits to tag (that is where refs are written) -- all of them when they fit,
-        # otherwise 70% of what is left of the budget; the rest of the budget is sampled from everything else.
-        core = [i for i in order if len(cases[i]["ops"]) <= 2 or i >= n_bfs]
-        incore = set(core)
-        perm = [i for i in order if i not in incore and cases[i]["ops"][-1].get("permitted")]
-        other = [i for i in order if i not in incore and not cases[i]["ops"][-1].get("permitted")]
-        left = max(0, budget - len(core))
-        ctx.rng.shuffle(perm)
-        ctx.rng.shuffle(other)
-        if len(perm) > left:
-            perm = perm[:int(left * 0.7)]
-        order = sorted(core + perm + other[:max(0, left - len(perm))])
+        # The long simulated histories are always replayed.  The breadth-first cases are stratified by the SHAPE of
+        # their history (sequence of action kinds + flag of the last invocation) and drawn round-robin over the
+        # shapes with the seed, so that every kind of history is present however small the budget: 60% of the
+        # budget for histories whose last invocation the contract permits to tag (that is where refs are
+        # written), the rest for all others.
+        simi = [i for i in order if i >= n_bfs]
+        left = max(0, budget - len(simi))
+
+        def draw(ids, quota):
+            groups = {}
+            for i in ids:
+                key = tuple(o["op"] for o in cases[i]["ops"]) + (cases[i]["ops"][-1].get("flag"),)
+                groups.setdefault(key, []).append(i)
+            for g in groups.values():
+                ctx.rng.shuffle(g)
+            out, keys = [], sorted(groups)
+            while len(out) < quota and keys:
+                for k in list(keys):
+                    if groups[k]:
+                        out.append(groups[k].pop())
+                        if len(out) >= quota:
+                            break
+                    else:
+                        keys.remove(k)
+            return out
+        perm = [i for i in order if i < n_bfs and cases[i]["ops"][-1].get("permitted")]
+        other = [i for i in order if i < n_bfs and not cases[i]["ops"][-1].get("permitted")]
+        pick = draw(perm, int(left * 0.6))
+        order = sorted(simi + pick + draw(other, left - len(pick)))
     tmpl = Templates(ctx)
     variants = {}
     for i in order:      # concretisation choices (not part of the abstract state): env-file place, packed refs
@@ -773,7 +812,7 @@ def run(ctx):
     picks = [i for i in order if results[i]["stats"]["tagged"]][:2] + [i for i in order if len(cases[i]["ops"]) >= 3][-2:]
     for i in picks[:4]:
         ctx.sample({"version": cases[i]["version"], "layout": variants[i][0], "packed_refs": variants[i][1],
-                    "history": [{k: v for k, v in x.items() if k in ("op", "name", "kind", "c", "flag", "version")} for x in cases[i]["ops"]],
+                    "history": [{k: v for k, v in x.items() if k in ("op", "name", "kind", "c", "flag", "version", "src")} for x in cases[i]["ops"]],
                     "contract_allows": cases[i]["ops"][-1].get("allowed"),
                     "real_tool": results[i]["log"][-1] if results[i]["log"] else None,
                     "observed_after": results[i]["events"][-1]["obs"]})
